@@ -4,6 +4,7 @@ under the hypotheses `DLaws C` (LawsSig.lean).  Private key d, public key Q = -d
 little-endian; `ld` is the length of the signature in bits, `oo = order_no`.
 -/
 import Bee2V.C16.LemmasSig4
+import Bee2V.C16.ToySig
 namespace Bee2V.C16
 open Sig
 variable {G F : Type} [AddCommGroup G] {C : Dstu G F}
@@ -119,5 +120,43 @@ theorem dstu_verify_rejects_padding (L : DLaws C) {ld : Nat} {Hb sig pub : Bytes
   rcases h with h | h
   · exact hb (hp1 b (d_pad_mem1 h h1 h2))
   · exact hb (hp2 b (d_pad_mem2 h h1))
+
+/-! ### non-vacuity: the hypotheses of the theorems above are satisfiable together (ToySig.lean:
+`toyDstu` over (ZMod 65521, +), m = 16, oo = 2: minimal ld = 32) -/
+section examples
+open ToySig
+set_option maxRecDepth 4000
+
+example : ∃ C : Dstu (ZMod 65521) (Fin 65536), DLaws C := ⟨toyDstu, toyDLaws⟩
+
+/-- a zero draw is repeated; d = 9, Q = -9P -/
+example := dstu_keygen_valid toyDLaws (fuel := 3) (tape := [0, 0, 9, 0]) (kp := [9, 0, 9, 0, 232, 255])
+  (used := 4) (by decide)
+
+/-- ld larger than the minimum (64 > 32): zero padding in both halves; signs and verifies -/
+example : toyDstu.sign 5 64 [1, 2, 3] [5, 0] [0, 0, 7, 0] = some (.ok, [7, 0, 0, 0, 42, 0, 0, 0], 4) ∧
+    toyDstu.verify 64 [1, 2, 3] [7, 0, 0, 0, 42, 0, 0, 0] (toyDstu.encXY (5, 65516)) = .ok :=
+  have hs : toyDstu.sign 5 64 [1, 2, 3] [5, 0] [0, 0, 7, 0]
+      = some (.ok, [7, 0, 0, 0, 42, 0, 0, 0], 4) := by decide
+  ⟨hs, dstu_sign_complete toyDLaws hs (by decide)⟩
+
+/-- minimal ld -/
+example : toyDstu.verify 32 [1, 2, 3] [7, 0, 42, 0] (toyDstu.encXY (5, 65516)) = .ok :=
+  dstu_sign_complete toyDLaws (fuel := 5) (priv := [5, 0]) (tape := [0, 0, 7, 0]) (used := 4)
+    (by decide) (by decide)
+
+example := dstu_verify_exact toyDLaws (ld := 64) (Hb := [1, 2, 3]) (sig := [7, 0, 0, 0, 42, 0, 0, 0])
+  (pub := [5, 0, 236, 255])
+
+/-- the valid signature with one padding octet set (position 2 of the first half, of the second half) -/
+example : toyDstu.verify 64 [1, 2, 3] [7, 0, 1, 0, 42, 0, 0, 0] (toyDstu.encXY (5, 65516)) ≠ .ok :=
+  dstu_verify_rejects_padding toyDLaws (i := 2) (b := 1) (by decide) (by decide) (by decide)
+    (Or.inl (by decide))
+
+example : toyDstu.verify 64 [1, 2, 3] [7, 0, 0, 0, 42, 0, 1, 0] (toyDstu.encXY (5, 65516)) ≠ .ok :=
+  dstu_verify_rejects_padding toyDLaws (i := 2) (b := 1) (by decide) (by decide) (by decide)
+    (Or.inr (by decide))
+
+end examples
 
 end Bee2V.C16
